@@ -60,7 +60,8 @@ RunIter(s, rl) ==
   THEN [st |-> s, rl |-> [rl EXCEPT !.pc = "done", !.outcome = "StepLimitExceeded"]]
   ELSE LET sr == Step(s) IN
        IF sr.done THEN [st |-> s, rl |-> [rl EXCEPT !.pc = "done", !.outcome = "NoErrors"]]
-       ELSE IF StateSize(sr.res.post) > StateSize(s) + s.cfg.growth_cap
+       \* (a negative cap encodes one beyond 32 bits: no step can exceed it)
+       ELSE IF s.cfg.growth_cap >= 0 /\ StateSize(sr.res.post) > StateSize(s) + s.cfg.growth_cap
        THEN [st |-> sr.res.post, rl |-> [rl EXCEPT !.pc = "done", !.outcome = "GrowthCapExceeded"]]
        ELSE [st |-> sr.res.post, rl |-> [rl EXCEPT !.steps = @ + 1]]
 \* the time limit is abstract: it may only fire at the loop head, between two steps
